@@ -114,4 +114,14 @@ example : typeInstr false (.seq [.GETN 0, .UNIT, .UPDATEN 0, .UNIT, .UNIT, .PAIR
 example : StackTy [.pair (.num .int 1) (.pair (.num .nat 2) .unit)] [.pair .int (.pair .nat .unit)] :=
   .cons (by simp [HasTy, checkVal]) .nil
 
+-- arithmetic: the result types of EDIV on mutez, AND on int × nat, SUB_MUTEZ
+example : typeInstr false (.seq [.EDIV, .SWAP, .AND]) [.mutez, .mutez, .int] = none := by
+  simp [typeInstr, typeSeq, Typing.step, edivResTy, Typing.edivTy, andTy]
+example : typeInstr false .EDIV [.mutez, .nat] = some (.ok [.option (.pair .mutez .mutez)]) := by
+  simp [typeInstr, Typing.step, edivResTy, Typing.edivTy]
+example : typeInstr false (.seq [.AND, .PUSH .nat (.num .nat 3), .LSL]) [.int, .nat] = some (.ok [.nat]) := by
+  simp [typeInstr, typeSeq, Typing.step, andTy, shiftTy, checkVal]
+example : typeInstr false .SUB_MUTEZ [.mutez, .mutez] = some (.ok [.option .mutez]) := by
+  simp [typeInstr, Typing.step, subMutezTy]
+
 end C02
